@@ -17,6 +17,20 @@ def check_case(jp, text, q, doc, rec, via):
     if via == "find":
         o = mon.observe(jp.find, text, doc)
         got = mon.sig(o[1]) if o[0] == "ok" else None
+    elif isinstance(via, tuple) and via[0] == "toggle":
+        # one environment instance whose nondeterministic flag was switched on and off again: the same query text must
+        # afterwards give the deterministic result
+        def run():
+            env = via[1]
+            env.nondeterministic = True
+            try:
+                env.find(text, doc)
+            except Exception:  # noqa: BLE001
+                pass
+            env.nondeterministic = False
+            return list(env.finditer(text, doc))
+        o = mon.observe(run)
+        got = mon.sig(o[1]) if o[0] == "ok" else None
     elif isinstance(via, tuple) and via[0] == "reuse":
         # one compiled query: an abandoned evaluation on another document first, then the evaluation that is checked
         def run():
@@ -63,7 +77,7 @@ def report(jp, rec, key, text, q, doc, via):
         text2 = G.render(q2, random.Random(0), canonical=True)
         doc2 = shrink.shrink_doc(doc2, lambda d: check_case(jp, text2, q2, d, _Null(), via)[0] == key)
     k, want, got = check_case(jp, text2, q2, doc2, _Null(), via)
-    rec.violation(key, {"query": text2, "ast": jsonable(q2), "document": jsonable(doc2), "via": via if isinstance(via, str) else ["reuse", jsonable(via[1])],
+    rec.violation(key, {"query": text2, "ast": jsonable(q2), "document": jsonable(doc2), "via": via if isinstance(via, str) else [via[0], jsonable(via[1]) if via[0] == "reuse" else "environment instance toggled nondeterministic on/off"],
                         "expected_locations": mon.locs_only(want), "observed": mon.locs_only(got) if isinstance(got, list) else got,
                         "original_query": text})
 
@@ -78,7 +92,11 @@ def replay(case, rec):
     q = _tuplify(case["ast"])
     via = case.get("via", "find")
     if isinstance(via, list):
-        via = ("reuse", via[1])
+        if via[0] == "toggle":
+            from jsonpath_rfc9535 import JSONPathEnvironment
+            via = ("toggle", JSONPathEnvironment())
+        else:
+            via = ("reuse", via[1])
     key, want, got = check_case(jp, case["query"], q, case["document"], rec, via)
     rec.case(case["query"], True)
     rec.case(case["query"] + "#", True)
